@@ -1,3 +1,56 @@
-from core_props import C11
+"""C11: everything core_props.C11 does (shuffle / sample-heavy histories judged by Run/SCore.v + Run/RCore.v, direct
+probes) plus the column variants ops.shuffle(col), ops.random_sample(col, k) and ops.shuffle_horiz, which have a Coq
+model of their own (Spec/ShuffleCol.v, Model/ShuffleCol.v, Gen/KShuffle.v) and are generated / judged by
+harness/c11x.py through Run/SC11x.v and Run/RC11x.v."""
+import c11x
+from core_props import C11 as _BaseC11
+
+
+class C11(_BaseC11):
+    oracle_vos = list(_BaseC11.oracle_vos) + c11x.ORACLE_VOS
+    model_vos = list(_BaseC11.model_vos) + c11x.MODEL_VOS
+    oracle_imports = list(_BaseC11.oracle_imports) + c11x.ORACLE_IMPORTS
+    model_imports = list(_BaseC11.model_imports) + c11x.MODEL_IMPORTS
+    kernel_files = list(_BaseC11.kernel_files) + c11x.KERNEL_FILES
+    rule = _BaseC11.rule + (
+        '; column variants: ops.shuffle(col) / ops.random_sample(col, k in -1..len+3) / ops.shuffle_horiz(columns | '
+        'DataMatrix | malformed argument lists) applied to a table of the pool reached by a 7-16 step history '
+        '(selections, sorts, shuffles, samples, selection-addressed writes: caches populated; Mixed / Float / Int '
+        'columns, aliases), source (before and after), result, the result used as a selection key and read through that '
+        'selection, and the result assigned back are dumped and judged in Coq against Spec/ShuffleCol.v (the '
+        'permutation(s) / the choice are read off the result there) and against the L1 model; a case is non-trivial '
+        'when the table has two or more rows (shuffle_horiz: two or more chosen columns)')
+    trusted_base = list(_BaseC11.trusted_base) + [
+        'harness/c11x.py (runner of the column variants; dumps with harness/world.py), Run/SC11x.v (comparators; reads '
+        'the permutation off the result), Spec/ShuffleCol.v: hand-written L0 of the column variants',
+    ]
+    assumptions = list(_BaseC11.assumptions) + [
+        'column variants: what `random.shuffle` / `random.sample` do to a sequence (a permutation / k distinct '
+        'positions, ValueError for k < 0 or k > len, every swap assigns through Index.__setitem__) is CPython '
+        'behaviour, hand-modelled; shuffle_horiz with SeriesColumns and with columns of a relative (same family, '
+        'another DataMatrix object) is outside the Coq model (series: Python-side probe); a chosen IntColumn that '
+        'would be handed a number beyond int64 is not generated',
+    ]
+
+    def generate(self, rng, tier):
+        cases = super().generate(rng, tier)
+        cases.extend(c11x.generate(rng, tier))
+        return cases
+
+    def rerun(self, inp):
+        if inp.get('x'):
+            return c11x.rerun(inp)
+        return super().rerun(inp)
+
+    def shrink_candidates(self, inp):
+        if inp.get('x'):
+            return c11x.shrink_candidates(inp)
+        return super().shrink_candidates(inp)
+
+    def key(self, case):
+        if case['input'].get('x'):
+            return c11x.key(case)
+        return super().key(case)
+
 
 PROP = C11()
